@@ -49,3 +49,18 @@ theorem setIdx_of_lt {α : Type} {l : List α} {i : Nat} (v : α) (h : i < l.len
   simp [setIdx, h]
 
 end RustSem
+
+namespace RustSem
+/-- `iter.map(f).collect::<Result<Vec<_>, _>>()`: elements are converted left to right, the first `Err` ends the iteration
+(the closure is not called on the remaining elements) -/
+def collectResult {α β ε : Type} (f : α → Res (Except ε β)) : List α → Res (Except ε (List β))
+  | [] => .ok (.ok [])
+  | a :: r =>
+    (f a).bind fun v =>
+      match v with
+      | .error e => .ok (.error e)
+      | .ok b => (collectResult f r).bind fun w =>
+        match w with
+        | .error e => .ok (.error e)
+        | .ok bs => .ok (.ok (b :: bs))
+end RustSem
